@@ -28,13 +28,20 @@ VARIABLES
 
 bvars == <<in, pos, cur, cnt, line, sizeS, sizeSys, pending, execs, status>>
 
-FreshBuilder == /\ cur' = <<>> /\ cnt' = 0 /\ line' = 1 /\ sizeS' = in.cmd /\ sizeSys' = in.cmd
+\* The system limiter charges every string its bytes, its terminator and one pointer (in.ptr, 0 where the input
+\* does not say), starts from what the command and the initial arguments cost there (in.sysbase, by default in.cmd)
+\* and refuses a single string longer than in.argmax (where given).
+Ptr(i) == IF "ptr" \in DOMAIN i THEN i.ptr ELSE 0
+SysBase(i) == IF "sysbase" \in DOMAIN i THEN i.sysbase ELSE i.cmd
+SysCost(a) == Cost(a) + Ptr(in)
+
+FreshBuilder == /\ cur' = <<>> /\ cnt' = 0 /\ line' = 1 /\ sizeS' = in.cmd /\ sizeSys' = SysBase(in)
 
 ImplInit(i) ==
   /\ in = i /\ pos = 1 /\ cur = <<>> /\ cnt = 0 /\ line = 1
-  /\ sizeS = i.cmd /\ sizeSys = i.cmd /\ pending = FALSE /\ execs = <<>>
+  /\ sizeS = i.cmd /\ sizeSys = SysBase(i) /\ pending = FALSE /\ execs = <<>>
   \* CommandBuilderOptions::new: the initial arguments must pass every limiter
-  /\ status = IF (i.s > 0 /\ i.cmd > i.s) \/ i.cmd > i.sys THEN "err" ELSE "run"
+  /\ status = IF (i.s > 0 /\ i.cmd > i.s) \/ SysBase(i) > i.sys THEN "err" ELSE "run"
 
 \* The chain's verdict for argument a on the given counters:
 \*   "ok", "full" (out_of_chars = false) or "chars" (out_of_chars = true).
@@ -42,7 +49,8 @@ Verdict(a, c, l, zs, zy) ==
   IF in.n > 0 /\ ~(c < in.n) THEN "full"
   ELSE IF in.L > 0 /\ ~(l <= in.L) THEN "full"
   ELSE IF in.s > 0 /\ ~(zs + Cost(a) <= in.s) THEN "chars"
-  ELSE IF ~(zy + Cost(a) <= in.sys) THEN "chars"
+  ELSE IF ~(zy + SysCost(a) <= in.sys) THEN "chars"
+  ELSE IF "argmax" \in DOMAIN in /\ Cost(a) > in.argmax THEN "chars"
   ELSE "ok"
 
 NextArg == in.args[pos]
@@ -53,7 +61,7 @@ Accept ==
   /\ Verdict(NextArg, cnt, line, sizeS, sizeSys) = "ok"
   /\ cur' = Append(cur, pos) /\ cnt' = cnt + 1
   /\ line' = IF NextArg.hard THEN line + 1 ELSE line
-  /\ sizeS' = sizeS + Cost(NextArg) /\ sizeSys' = sizeSys + Cost(NextArg)
+  /\ sizeS' = sizeS + Cost(NextArg) /\ sizeSys' = sizeSys + SysCost(NextArg)
   /\ pending' = TRUE /\ pos' = pos + 1
   /\ UNCHANGED <<in, execs, status>>
 
@@ -72,10 +80,10 @@ FlushRetry ==
      /\ v # "ok"
      /\ ~(v = "chars" /\ in.x /\ (in.n > 0 \/ in.L > 0))
   /\ execs' = IF pending THEN Append(execs, cur) ELSE execs
-  /\ IF Verdict(NextArg, 0, 1, in.cmd, in.cmd) = "ok"
+  /\ IF Verdict(NextArg, 0, 1, in.cmd, SysBase(in)) = "ok"
      THEN /\ cur' = <<pos>> /\ cnt' = 1
           /\ line' = IF NextArg.hard THEN 2 ELSE 1
-          /\ sizeS' = in.cmd + Cost(NextArg) /\ sizeSys' = in.cmd + Cost(NextArg)
+          /\ sizeS' = in.cmd + Cost(NextArg) /\ sizeSys' = SysBase(in) + SysCost(NextArg)
           /\ pending' = TRUE /\ pos' = pos + 1 /\ UNCHANGED status
      ELSE \* ArgumentTooLarge
           /\ status' = "err" /\ FreshBuilder /\ UNCHANGED <<pending, pos>>
@@ -101,7 +109,7 @@ CountersAgree ==
   status = "run" =>
     /\ cnt = Len(cur)
     /\ line = 1 + Cardinality({k \in DOMAIN cur : in.args[cur[k]].hard})
-    /\ sizeS = BatchSize(in, cur) /\ sizeSys = sizeS
+    /\ sizeS = BatchSize(in, cur) /\ sizeSys = SysBase(in) + (sizeS - in.cmd) + Ptr(in) * Len(cur)
 
 \* Nothing lost, duplicated or reordered at any time.
 LosslessAlways == Flatten(execs) \o (IF status = "run" THEN cur ELSE <<>>) = [k \in 1..Len(Flatten(execs) \o (IF status = "run" THEN cur ELSE <<>>)) |-> k]
